@@ -362,3 +362,72 @@ Example ex_ambiguous_fails :
   encode ex_ambiguous (VSeq [None; Some (VInt 5)]) = Some [48; 3; 2; 1; 5] /\
   decode_top ex_ambiguous [48; 3; 2; 1; 5] = None.
 Proof. vm_compute. auto. Qed.
+
+(* ---------- the encoder writes octets ---------- *)
+Definition enc_octets (t : ty) : Prop :=
+  forall v, wf_val t v = true -> zlen (enc t v) < 2 ^ 32 -> wf_bytes (enc t v).
+
+Lemma tlv_wf_body id body : 0 <= id < 256 -> zlen (tlv id body) < 2 ^ 32 -> wf_bytes body -> wf_bytes (tlv id body).
+Proof. intros Hi Hl Hb. apply tlv_wf; auto. pose proof (zlen_tlv id body). lia. Qed.
+
+Lemma ident_byte cls c n : 0 <= cls <= 3 -> tag_ok n = true -> 0 <= ident cls c n < 256.
+Proof. unfold tag_ok, ident. intros Hc H. destruct c; lia. Qed.
+
+Lemma enc_fields_octets fs :
+  Forall (fun f : field => schema_ok (snd f) = true -> enc_octets (snd f)) fs ->
+  fields_ok schema_ok fs = true ->
+  forall vs, wf_fields wf_val fs vs = true -> zlen (enc_fields enc fs vs) < 2 ^ 32 ->
+  wf_bytes (enc_fields enc fs vs).
+Proof.
+  induction 1 as [|[[tag opt] t] fs Ho _ IH]; intros Hok vs Hwf Hl.
+  - destruct vs; constructor.
+  - destruct vs as [|o vs]; [discriminate|].
+    rewrite wf_fields_cons in Hwf. apply andb_true_iff in Hwf. destruct Hwf as [Hw1 Hw2].
+    rewrite fields_ok_cons in Hok. repeat (apply andb_true_iff in Hok; destruct Hok as [Hok ?]).
+    cbn [snd] in Ho. specialize (Ho H1). rewrite enc_fields_cons in *. rewrite zlen_app in Hl.
+    pose proof (zlen_nonneg (enc_fields enc fs vs)).
+    destruct o as [v|].
+    + pose proof (zlen_nonneg (wrap_tag tag (enc t v))).
+      apply wf_bytes_app. split; [|apply IH; auto; lia].
+      destruct tag as [n|]; cbn [wrap_tag opt_tag_ok] in *.
+      * apply tlv_wf_body; [apply ident_byte; [lia | exact Hok] | lia |].
+        apply Ho; auto. pose proof (zlen_tlv (ident 2 true n) (enc t v)). lia.
+      * apply Ho; auto. lia.
+    + cbn [app]. apply IH; auto; rewrite zlen_nil in Hl; lia.
+Qed.
+
+Theorem enc_wf_bytes : forall t, schema_ok t = true -> enc_octets t.
+Proof.
+  induction t using ty_ind'; intros Hok v Hwf Hl; cbn [schema_ok] in Hok.
+  1-10, 12: destruct v; cbn [wf_val] in Hwf; try discriminate.
+  all: cbn [wf_val enc] in *.
+  - apply tlv_wf_body; [lia | exact Hl | apply enc_int_wf].
+  - apply tlv_wf_body; [lia | exact Hl | apply wf_bytesb_iff, Hwf].
+  - apply tlv_wf_body; [lia | exact Hl | apply wf_bytesb_iff, Hwf].
+  - apply tlv_wf_body; [lia | exact Hl | apply enc_time_wf, Hwf].
+  - apply andb_true_iff in Hwf. destruct Hwf as [Hb Hw]. apply tlv_wf_body; [lia | exact Hl |].
+    unfold enc_bits. apply wf_bytes_cons. split; [unfold bits_ok in Hb; lia | apply wf_bytesb_iff, Hw].
+  - destruct (oid_ok_enc arcs Hwf) as (x & E). rewrite E in *.
+    apply tlv_wf_body; [lia | exact Hl | eapply enc_oid_wf, E].
+  - apply tlv_wf_body; [lia | exact Hl | apply enc_int_wf].
+  - apply tlv_wf_body; [lia | exact Hl |]. apply wf_bytes_cons. split; [destruct b; lia | constructor].
+  - unfold id_seq in *. apply tlv_wf_body; [lia | exact Hl |].
+    apply enc_fields_octets; auto. pose proof (zlen_tlv 48 (enc_fields enc fs fs0)). lia.
+  - unfold id_seq in *. apply tlv_wf_body; [lia | exact Hl |].
+    pose proof (zlen_tlv 48 (flat_map (enc t) vs)) as Hb.
+    assert (Hb' : zlen (flat_map (enc t) vs) < 2 ^ 32) by lia. clear Hb Hl.
+    induction vs as [|v vs IHvs]; [constructor|]. cbn [flat_map forallb] in *.
+    apply andb_true_iff in Hwf. destruct Hwf as [Hv Hvs]. rewrite zlen_app in Hb'.
+    pose proof (zlen_nonneg (enc t v)). pose proof (zlen_nonneg (flat_map (enc t) vs)).
+    apply wf_bytes_app. split; [apply IHt; auto; lia | apply IHvs; auto; lia].
+  - apply andb_true_iff in Hwf. destruct Hwf as [Hw _]. apply wf_bytesb_iff, Hw.
+  - apply andb_true_iff in Hok. destruct Hok as [Hn Hok].
+    apply tlv_wf_body; [apply ident_byte; [lia | exact Hn] | exact Hl |].
+    apply IHt; auto. pose proof (zlen_tlv (ident 1 true n) (enc t v)). lia.
+Qed.
+
+Corollary encode_wf_bytes t v b :
+  schema_ok t = true -> encode t v = Some b -> zlen b < 2 ^ 32 -> wf_bytes b.
+Proof.
+  intros Hok He Hl. apply encode_some in He. destruct He as [Hwf ->]. apply enc_wf_bytes; auto.
+Qed.
